@@ -102,6 +102,10 @@ GLOBAL_BENIGN = [
 ]
 
 
+# properties whose rules are confirmed independent of the names of local variables (the others are being converted)
+RENAME_ROBUST = {"C03", "C06", "C07", "C13", "C14", "C17", "C19", "C20"}
+
+
 def _one(args):
     prop, seed, src_root = args
     from .cli import evaluate
@@ -187,7 +191,8 @@ def run_seeds(prop, seeds, src_root=None, workers=None):
 
 def run_for(prop, ctx=None):
     mod = importlib.import_module(f"nqsa.rules.{prop.lower()}")
-    seeds = list(getattr(mod, "SEEDS", [])) + [dict(s, expect=None) for s in getattr(mod, "BENIGN", [])] + GLOBAL_BENIGN
+    seeds = list(getattr(mod, "SEEDS", [])) + [dict(s, expect=None) for s in getattr(mod, "BENIGN", [])] + \
+        [g for g in GLOBAL_BENIGN if g["transform"] != "rename-locals" or prop in RENAME_ROBUST]
     res = run_seeds(prop, seeds)
     summary = {"seeds": len(seeds), "ok": 0, "skipped": 0, "failed": 0, "results": []}
     for sid, status, msg in res:
@@ -201,7 +206,7 @@ def run_for(prop, ctx=None):
 def main(argv):
     import sys
 
-    props = argv or ["C%02d" % i for i in range(1, 21) if i != 19]
+    props = argv or ["C%02d" % i for i in range(1, 21)]
     bad = 0
     for p in props:
         s = run_for(p.upper())
